@@ -83,6 +83,35 @@ def check_scoping(ctx, case, want_agree=True):
             ctx.violation(f"handlers disagree on {text!r}: native {got['native']!r}, lxml {got['lxml']!r}", {"levels": case["levels"], "text": text})
 
 
+def check_union_siblings(ctx, case):
+    """spec/Handler.tla, middle kind union: declarations made by a CHILD of the union element end with that child - the
+    union element's own QName attribute and its later children see the scope of the union element."""
+    if case["levels"][1]["kind"] != "union":
+        return
+    scope = {"m": hb.NS_M}
+    for lv in case["levels"][:2]:
+        for p, u in lv["decls"]:
+            scope[p] = u
+    xctx = XmlContext()
+    for prefix in ("p", ""):
+        uri = scope.get(prefix, "" if prefix == "" else None)
+        inner_uri = case["scope"][prefix]
+        if uri is None or inner_uri == NONE:
+            continue            # (an unresolvable value anywhere makes every candidate of the union fail)
+        exp = QName(uri, "x") if uri else QName("x")
+        text = hb.union_sibling_doc(case["levels"], prefix)
+        for h in ("native", "lxml"):
+            ctx.case(("union-siblings", str(case["levels"]), prefix, h))
+            st, obj, _nwarn = hb.parse(text, h, xctx)
+            if st != "ok":
+                ctx.violation(f"{h} handler failed on a well-formed document: {type(obj).__name__}: {obj}", {"levels": case["levels"], "text": text})
+                continue
+            got = (getattr(obj.u, "ref", None), obj.u.after.q if getattr(obj.u, "after", None) else None)
+            if got != (exp, exp):
+                ctx.violation(f"{h} handler: attribute and later child of a union element resolved to {got!r}; the scope of the union element gives {exp!r}",
+                              {"levels": case["levels"], "text": text, "handler": h})
+
+
 def check_spellings(ctx, case, styles=(0, 1, 2, 3, 4), respell=hb.RESPELL):
     """All spellings of one prescribed document parse to the object itself."""
     r = rt.Real(case)
@@ -371,6 +400,7 @@ def run(ctx):
     ctx.assumptions += ["expat / libxml2 deliver the XML infoset for CDATA, character references, comments, PIs and encodings"]
     for c in scoping_cases(ctx):
         check_scoping(ctx, c)
+        check_union_siblings(ctx, c)
     ctx.exhaustive = True
     cases = rt.generate(ctx, label="Gen_RoundTrip documents 1 field", max_fields=1, faults=("none",), cfgs="StrictOnly")
     cases += rt.generate(ctx, label="Gen_RoundTrip documents 2 fields (simulate)", max_fields=2, faults=("none",), cfgs="StrictOnly",
